@@ -349,6 +349,10 @@ def _class_cm_state(cls: ast.ClassDef):
     body = _strip_doc(ext.body)
     if body and isinstance(body[-1], ast.Return) and (body[-1].value is None or (isinstance(body[-1].value, ast.Constant) and not body[-1].value.value)):
         body = body[:-1]
+    # a leading guard `if c: return` + rest  ->  `if not c: rest`
+    if len(body) >= 2 and isinstance(body[0], ast.If) and not body[0].orelse and len(body[0].body) == 1 and isinstance(body[0].body[0], ast.Return) and (body[0].body[0].value is None or (isinstance(body[0].body[0].value, ast.Constant) and not body[0].body[0].value.value)):
+        g0_ = body[0]
+        body = [ast.copy_location(ast.If(test=ast.copy_location(ast.UnaryOp(op=ast.Not(), operand=g0_.test), g0_.test), body=list(body[1:]), orelse=[]), g0_)]
     for b in body:
         for n in ast.walk(b):
             if isinstance(n, ast.Return) or isinstance(n, (ast.Yield, ast.YieldFrom)):
@@ -368,6 +372,12 @@ def _class_cm_state(cls: ast.ClassDef):
                 tg = st_.targets[0] if isinstance(st_, ast.Assign) else st_.target
                 if isinstance(tg, ast.Attribute) and isinstance(tg.value, ast.Name) and tg.value.id == init.args.args[0].arg and isinstance(st_.value, ast.Name):
                     stored[tg.attr] = st_.value.id
+                    order.append(tg.attr)
+                    continue
+                iparams_ = {a_.arg for a_ in init.args.args[1:] + init.args.kwonlyargs}
+                if isinstance(tg, ast.Attribute) and isinstance(tg.value, ast.Name) and tg.value.id == init.args.args[0].arg and st_.value is not None and not any(isinstance(n_, (ast.Call, ast.Await, ast.Yield, ast.Lambda, ast.NamedExpr)) for n_ in ast.walk(st_.value)) and all(n_.id in iparams_ for n_ in ast.walk(st_.value) if isinstance(n_, ast.Name)):
+                    # a field computed from the constructor arguments by attribute reads / comparisons only
+                    stored[tg.attr] = st_.value
                     order.append(tg.attr)
                     continue
             return None
@@ -472,7 +482,7 @@ class _StateCMDesugar(ast.NodeTransformer):
                 amap = _bind(init, call, skip_self=True)
                 if amap is None:
                     continue
-                given = {fld: amap[prm] for fld, prm in stored.items() if prm in amap}
+                given = {fld: (amap[prm] if isinstance(prm, str) else _Subst(amap).visit(copy.deepcopy(prm))) for fld, prm in stored.items() if not isinstance(prm, str) or prm in amap}
             else:
                 if any(isinstance(a, ast.Starred) for a in call.args) or any(k.arg is None for k in call.keywords) or len(call.args) > len(order):
                     continue
